@@ -70,7 +70,7 @@ Fixpoint wmap {A B} (f : A -> wres B) (l : list A) : wres (list B) :=
 (* ---------- names ---------- *)
 Definition ident_start (c : N) : bool :=
   ((65 <=? c) && (c <=? 90) || (97 <=? c) && (c <=? 122) || (c =? 95))%N.
-Definition ident_char (c : N) : bool := (ident_start c || (48 <=? c) && (c <=? 57) || (c =? 36))%N.
+Definition ident_char (c : N) : bool := (ident_start c || (48 <=? c) && (c <=? 57))%N.   (* verilog_tokens.is_valid_identifier: no $ *)
 (* a simple identifier, or an escaped identifier (its token, stripped, is the name again: _fix_name adds the blank) *)
 Definition name_ok (s : str) : bool :=
   match s with
